@@ -16,6 +16,13 @@ mod test_server;
 mod waker_queue;
 mod worker;
 
+/// Verification hooks (only with `--cfg actix_net_verif`); the source is supplied by the
+/// verification harness through the `ACTIX_NET_VERIF_DIR` environment variable.
+#[cfg(actix_net_verif)]
+pub mod verif {
+    include!(concat!(env!("ACTIX_NET_VERIF_DIR"), "/server_verif.rs"));
+}
+
 #[doc(hidden)]
 pub use self::socket::FromStream;
 pub use self::{
